@@ -125,3 +125,39 @@ Example C09_nonvacuous_zone :
   (map (fun f => (fymd f, fidx f, map rday (fcont f))) (rot w), map rday (act w))
   = ([((2023, 11, 14), 1, [19675])], [19676]).
 Proof. vm_compute. reflexivity. Qed.
+
+(* ---- round 8: the sink obtained through the fluent front end SimplePipeline::sendToFile(path, L, N, options).
+   [src_front] is translated from simplepipeline.cpp on every run: which requests make the front end build the rotating
+   sink.  Whatever the configuration and the history, the directory (and the ghost history) develops exactly as with a
+   directly constructed RotatingFileSink - so every theorem of C05, C06, C07 and C09 above holds for it too: where the
+   front end builds the plain append-only FileSink, the rotating sink would never have rotated. *)
+Require Import QtlVerif.RotateFrontDefs QtlVerif.RotateFrontProofs QtlVerif.SrcRotateFront.
+Theorem C09_source_front_end_good : front_goodb src_front = true.
+Proof. vm_compute. reflexivity. Qed.
+Print Assumptions C09_source_front_end_good.
+
+Theorem C09_front_end_sink_behaves_as_the_rotating_sink : forall c t0 ops,
+  same_files (run_front src_front src_shape c t0 ops) (run src_shape c t0 ops).
+Proof. exact (fun c t0 ops => front_end_equivalent src_front C09_source_front_end_good src_shape c t0 ops). Qed.
+Print Assumptions C09_front_end_sink_behaves_as_the_rotating_sink.
+
+Theorem C09_daily_rotation_asked_for_is_built : forall c, daily c = true -> picks_rotating src_front c = true.
+Proof.
+  intros c H. unfold picks_rotating. rewrite H.
+  replace (f_daily src_front) with true by (vm_compute; reflexivity). rewrite Bool.orb_true_r. reflexivity.
+Qed.
+Print Assumptions C09_daily_rotation_asked_for_is_built.
+
+(* a front end that forgets the daily flag builds the plain sink for "daily only": no rotation where one is due *)
+Theorem C09_front_end_without_the_daily_case_refuted :
+  exists ops, rot (run_front forgetful_front std_shape daily_only_cfg 0 ops) = []
+              /\ rot (run std_shape daily_only_cfg 0 ops) <> [].
+Proof. exact forgetful_front_refuted. Qed.
+Print Assumptions C09_front_end_without_the_daily_case_refuted.
+
+Example C09_front_nonvacuous :
+  picks_rotating src_front daily_only_cfg = true
+  /\ picks_rotating src_front {| cL := 0; cN := 3; startup := false; daily := false; compress := true; cgran := G1s;
+                                 cbase := [97%N]; csuffix := []; ctz := 0 |} = false
+  /\ length (rot (run_front src_front src_shape daily_only_cfg 0 [Write TInfo [120%N]; Advance 86400000; Write TInfo [121%N]])) = 1%nat.
+Proof. vm_compute. repeat split. Qed.
